@@ -146,6 +146,18 @@ func H_C13_Handlers() {
 		f.vAddConcreteAlive(vPeerA, 2)
 	}
 	kind := []messageType{suspectMsg, aliveMsg, deadMsg, userMsg, pingMsg, indirectPingMsg, ackRespMsg, nackRespMsg}[vPick(8)]
+	if kind == ackRespMsg || kind == nackRespMsg {
+		// the node may be in the middle of a probe of its own or of a relay for somebody else: the hostile
+		// response is free to carry exactly the pending sequence number
+		switch vPick(4) {
+		case 1:
+			f.m.setProbeChannels(vU32(), make(chan ackMessage, 2), nil, 500*time.Millisecond)
+		case 2:
+			f.m.setProbeChannels(vU32(), make(chan ackMessage, 2), make(chan struct{}, 1), 500*time.Millisecond)
+		case 3:
+			f.m.setAckHandler(vU32(), func([]byte, time.Time) {}, 500*time.Millisecond)
+		}
+	}
 	pkt := vWellFormedHostile(kind)
 	f.m.ingestPacket(pkt, vAddr("10.0.0.9:1"), time.Time{})
 	f.vDrain()
